@@ -142,4 +142,47 @@ theorem C18_setnStr_wellformed (o : Opt) (s : Option Bytes) (i : Nat) (fail : Op
         · exact hwf
         · exact set_ok o _ _ _ hty hwf
 
+
+/-- **C18 (`cfg_setopt` from text, plain options).** For EVERY position `k` of the failing request:
+(1) the call completes exactly when no request of its own failed, and then the option is the one the fault-free
+call produces; (2) since fix F42 the text is copied before the option is touched, so when that first request
+fails NOTHING has changed - not even the pristine defaults are gone; (3) a later failure (while the value cell is
+added) reports failure with the defaults dropped and nothing else changed. -/
+theorem C18_setopt_plain (o : Opt) (cv : Conv) (fail : Option Nat) :
+    ((setoptPlainF o cv fail).ok = true → (setoptPlainF o cv fail).opt = (setoptPlainF o cv none).opt) ∧
+    ((∃ s, cv = .str s) → fail = some 0 → (setoptPlainF o cv fail).ok = false ∧ (setoptPlainF o cv fail).opt = o) ∧
+    ((setoptPlainF o cv fail).ok = false → (setoptPlainF o cv fail).opt = o ∨ (setoptPlainF o cv fail).opt = (dropDefaults o).1) := by
+  unfold setoptPlainF
+  refine ⟨?_, ?_, ?_⟩
+  · intro hok
+    cases cv <;> simp only [] at hok ⊢
+    all_goals (
+      repeat' split at hok
+      all_goals first
+        | (simp at hok; done)
+        | skip)
+    all_goals (
+      simp only [shiftFail, addvalF] at *
+      repeat' split
+      all_goals first
+        | rfl
+        | simp_all)
+  · rintro ⟨s, rfl⟩ hf
+    subst hf
+    simp
+  · intro hok
+    cases cv <;> simp only [] at hok ⊢
+    all_goals (
+      simp only [shiftFail, addvalF] at *
+      repeat' split at hok
+      all_goals first
+        | (simp at hok; done)
+        | skip)
+    all_goals (
+      repeat' split
+      all_goals first
+        | (left; rfl)
+        | (right; rfl)
+        | simp_all)
+
 end Confuse
